@@ -199,6 +199,26 @@ def constant_metrics(d, seed=0, include_implicit=True):
         out.append(("low_rank_downdate", lambda: M.PositiveDefiniteLowRankUpdateMatrix(
             0.4 * U, M.PositiveDiagonalMatrix(diag.copy() + 1.0), sign=-1),
             np.diag(diag + 1.0) - 0.16 * U @ U.T))
+    # metrics DERIVED from a matrix that already holds lazily computed factors (histories: the
+    # inverse of a dense matrix carries its factorisation; a matrix is used, then rescaled)
+    Binv = np.linalg.inv(B)
+
+    def _scaled_inv():
+        return 0.25 * M.DensePositiveDefiniteMatrix(Binv.copy()).inv
+
+    def _used_then_divided():
+        m = M.DensePositiveDefiniteMatrix(B.copy())
+        m.log_abs_det, m.sqrt, m.inv  # noqa: B018
+        return m / 0.4
+
+    def _diag_used_then_scaled():
+        m = M.PositiveDiagonalMatrix(diag.copy())
+        m.sqrt, m.inv, m.log_abs_det  # noqa: B018
+        return 2.5 * m
+
+    out += [("derived_scaled_inv_dense", _scaled_inv, 0.25 * B),
+            ("derived_used_then_divided", _used_then_divided, B / 0.4),
+            ("derived_diag_used_then_scaled", _diag_used_then_scaled, 2.5 * np.diag(diag))]
     if d == 2:
         R = np.array([[1.0, 0.5, -0.3], [0.2, 1.1, 0.7]])
         D = np.array([1.0, 2.0, 0.5])
@@ -598,13 +618,14 @@ def build_case(cfg):
     raise ValueError(fam)
 
 
-def metric_names(d, include_implicit=True):
-    return [n for n, _, _ in constant_metrics(d, 0, include_implicit)]
+def metric_names(d, include_implicit=True, include_derived=False):
+    return [n for n, _, _ in constant_metrics(d, 0, include_implicit)
+            if include_derived or not n.startswith("derived_")]
 
 
 def system_configs(seed, tier, families=("euclidean", "gaussian", "constrained",
                                          "gaussian_constrained", "riemannian"),
-                   dims=(1, 2, 3), all_convs=True):
+                   dims=(1, 2, 3), all_convs=True, derived_metrics=False):
     """Complete product of discrete system options (JSON-able dicts)."""
     out = []
     tnames = ("quartic", "logcosh") if tier == "quick" else ("quartic", "logcosh", "gauss")
@@ -612,7 +633,7 @@ def system_configs(seed, tier, families=("euclidean", "gaussian", "constrained",
     for d in dims:
         for tn in tnames:
             if "euclidean" in families or "gaussian" in families:
-                for mn in metric_names(d):
+                for mn in metric_names(d, include_derived=derived_metrics):
                     for gc in gconvs:
                         for fam in ("euclidean", "gaussian"):
                             if fam in families:
@@ -620,7 +641,7 @@ def system_configs(seed, tier, families=("euclidean", "gaussian", "constrained",
                                             "grad_conv": gc, "seed": seed})
             if d >= 2 and ("constrained" in families or "gaussian_constrained" in families):
                 for con in constraints(d, seed):
-                    for mn in metric_names(d):
+                    for mn in metric_names(d, include_derived=derived_metrics):
                         for gc, jc in ((("plain", "plain"), ("with_value", "with_value"))
                                        if all_convs else (("plain", "plain"),)):
                             if "constrained" in families:
